@@ -208,6 +208,11 @@ func genC22(rng *rand.Rand, n int) SrvCase {
 }
 
 func checkC22(r *Result, rng *rand.Rand, thorough bool) {
+	traces, doneTraces := collectTraces(200)
+	defer func() {
+		doneTraces()
+		compareSrv(r, "srv", *traces)
+	}()
 	ncases, n := 400, 20
 	if thorough {
 		ncases, n = 4000, 40
